@@ -97,6 +97,8 @@ pub fn run(ctx: &Ctx) {
             }
         }
     }
+    // listed known finding siglen>65535: always exercised
+    grid.push(SignCase { hash: HashId::Sha256_256, levels: vec![(1, 2); 8], seed: gen::SeedSpec::Random(8), counter: 9, counter_class: "siglen".into(), msg: gen::MsgSpec { len: 10, tag: 8 } });
     ctx.enumerate("grid_all_hash_w", grid.len() as u64, true, |i| grid[i as usize].clone(), |c| check_byte_exact(ctx, c));
 
     if !ctx.quick() {
